@@ -62,6 +62,9 @@ def cases(draw, allow_rm=True):
             ops.append(["sredo", draw(st.integers(0, 3))])
         else:
             ops.append(["limit", draw(st.sampled_from([1, 2, 3, 5]))])
+        if draw(st.integers(0, 11)) == 0:
+            # a change that touches only an IGNORED resource: performed, not recorded for undo, but still "a new change"
+            ops.append(["do_ignored", draw(st.integers(0, 99))])
     return {"tree": tree, "ops": ops}
 
 
@@ -164,6 +167,15 @@ def _resolve_letter(t, x, n):
 # ---------------------------------------------------------------- evaluation
 
 
+IGNORED = "zz_ignored.txt"
+
+
+def _snap(root):
+    t = fsmodel.snapshot(root)
+    t.pop(IGNORED, None)
+    return t
+
+
 def evaluate(case, env):
     from rope.base import exceptions as rex
     from rope.base.project import Project
@@ -176,7 +188,10 @@ def evaluate(case, env):
     project = None
     try:
         fsmodel.write_tree(root, case["tree"])
-        project = Project(root, ropefolder=None)
+        # one ignored file lives next to the tree; it is outside the model (the snapshots below leave it out)
+        with open(os.path.join(root, IGNORED), "w") as fh:
+            fh.write("i = 0\n")
+        project = Project(root, ropefolder=None, ignored_resources=[IGNORED])
         base = fsmodel.tree_bytes(case["tree"])  # tree with the truncated (forgotten) changes applied
         entries = {}  # id(change) -> {"spec", "obj", "n"}
         m_undo, m_redo = [], []  # model lists of entry dicts (order synchronised with rope's after each step)
@@ -188,6 +203,28 @@ def evaluate(case, env):
             kind = op[0]
             tree_now = _fold(base, m_undo)
             sub = {"step": step, "op": op}
+            if kind == "do_ignored":
+                from rope.base.change import ChangeContents, ChangeSet
+
+                had_redo = bool(m_redo)
+                chs = ChangeSet("ignored %d" % step)
+                chs.add_change(ChangeContents(project.get_file(IGNORED), "i = %d\n" % (op[1] + step)))
+                project.do(chs)
+                out.evals += 1
+                m_redo = []
+                if had_redo:
+                    feats.add("ignored_change_clears_redo")
+                if project.history.redo_list:
+                    out.violation("C11:do:redo_not_cleared_by_unrecorded_change", "redo list has %d entries after a new change to an ignored file" % len(project.history.redo_list), sub)
+                    break
+                if len(project.history.undo_list) != len(m_undo):
+                    out.violation("C11:do:ignored_change_recorded", "undo list %d, expected %d" % (len(project.history.undo_list), len(m_undo)), sub)
+                    break
+                with open(os.path.join(root, IGNORED)) as fh:
+                    if fh.read() != "i = %d\n" % (op[1] + step):
+                        out.violation("C11:do:ignored_change_not_performed", "", sub)
+                        break
+                continue
             if kind == "rename":
                 got = _rope_rename(project, tree_now, op[1], step)
                 if got is None:
@@ -232,7 +269,7 @@ def evaluate(case, env):
                     op = [kind, 0, False]
                 lst = m_undo if kind in ("undo", "sundo") else m_redo
                 if not lst:
-                    before = fsmodel.snapshot(root)
+                    before = _snap(root)
                     try:
                         (project.history.undo if kind in ("undo", "sundo") else project.history.redo)()
                         out.violation("C11:%s:empty_not_refused" % kind, "no HistoryError on empty list", sub)
@@ -241,7 +278,7 @@ def evaluate(case, env):
                     except Exception as e:
                         out.violation("C11:%s:empty_wrong_error" % kind, repr(e), sub)
                     out.evals += 1
-                    if fsmodel.snapshot(root) != before:
+                    if _snap(root) != before:
                         out.violation("C11:%s:empty_changed_tree" % kind, "", sub)
                     continue
                 idx = len(lst) - 1 if kind in ("undo", "redo") else op[1] % len(lst)
@@ -315,7 +352,7 @@ def evaluate(case, env):
             except fsmodel.SpecError as e:
                 out.notes["fold_undefined"] += 1
                 break
-            got_tree = fsmodel.snapshot(root)
+            got_tree = _snap(root)
             if got_tree != want_tree:
                 out.violation(
                     "C11:%s:tree" % kind,
